@@ -1213,6 +1213,22 @@ run_cmd(char **w, int nw, struct cmdres *r)
         was_top = lyd_parent(n) ? 0 : 1;
         was_first = (n == T[s]);
         nx = n->next;
+        if (was_top && was_first && nx && ((w[1][0] == 'c') || (w[1][0] == 's'))) {
+            /* all the siblings are going to be moved: not when that puts a second equal (leaf-)list instance next to
+             * one of the destination (lyds_merge_nodes2_among() has been seen to run off its red-black tree then) */
+            struct lyd_node *dst = (w[1][0] == 'c') ? lyd_child(tgt) : lyd_first_sibling(tgt), *m;
+
+            if (has_dup_inst(n)) {
+                SKIP();
+            }
+            for (struct lyd_node *it = n; it && dst; it = it->next) {
+                if (it->schema && (it->schema->nodetype & (LYS_LIST | LYS_LEAFLIST)) && !lysc_is_dup_inst_list(it->schema) &&
+                        (lyd_parent(dst) ? (lysc_data_parent(it->schema) == lyd_parent(dst)->schema) : !lysc_data_parent(it->schema)) &&
+                        !lyd_find_sibling_first(dst, it, &m)) {
+                    SKIP();
+                }
+            }
+        }
         watch_set(n);
         watch_set(tgt);
         r->inv |= (1u << t) | (1u << s);
@@ -1336,6 +1352,7 @@ run_cmd(char **w, int nw, struct cmdres *r)
         r->ectx = LYD_CTX(n);
         r->rc = lyd_change_term(n, arg_str(w[2]));
         r->fail = (r->rc && (r->rc != LY_EEXIST) && (r->rc != LY_ENOT)) ? 1 : 0;
+        fix_first(s);       /* an instance of a sorted leaf-list moves to its new place */
     } else if (!strcmp(c, "chgmeta")) {
         /* chgmeta N j val : j-th (mod count) non-internal metadata of the node */
         struct lyd_node *n;
@@ -1922,6 +1939,7 @@ main(void)
     signal(SIGSEGV, on_abort);
     signal(SIGBUS, on_abort);
     signal(SIGFPE, on_abort);
+    signal(SIGALRM, on_abort);
     ly_set_log_clb(log_cb);
     ly_log_options(LY_LOLOG | LY_LOSTORE_LAST);
     /* one-time allocations of the library (plugin tables, ...) happen outside of the accounting */
@@ -1948,6 +1966,7 @@ main(void)
         memset(dbg0, 0, sizeof dbg0);
         sb_reset(&o);
         notfreed_warn = 0;
+        alarm(20);      /* a case that hangs (observed: a loop over freed nodes in the plain build) ends as a crash by SIGALRM */
         gen_diff = 0;
         used_unknown = 0;
         trk_reset();
@@ -2143,6 +2162,7 @@ main(void)
             sb_fmt(&o, "@%ld:%s%s%s", leak_cmd, leak_name, leak_err[0] ? "~" : "", leak_err);
         }
         sb_fmt(&o, ":l%d", lsan);
+        alarm(0);
         fputs(o.s, stdout);
         __real_free(names);
         __real_free(errs);
